@@ -52,6 +52,17 @@ func relComponents(t types.Type, pkgPath string) []int {
 }
 
 func checkRelationsNotDropped(c *Ctx, f *FC) {
+	checkResultsNotDropped(c, f, "C02.e", func(t types.Type) []int { return relComponents(t, f.Path) }, "relation list",
+		"a constraint the program imposes never reaches the resolver, so a type the body determines can stay a type variable (emitted as T0…) or two uses are never unified", "relation_producing_calls")
+}
+
+// checkResultsNotDropped: the error-discipline rule for a result type that carries an obligation.
+// droppedResultExceptions: rule|function|callee -> reason
+var droppedResultExceptions = map[string]string{
+	"PAIR.drop|transpileFiles|slice.Fold": "the state after the last file is not needed: the run ends",
+}
+
+func checkResultsNotDropped(c *Ctx, f *FC, rule string, components func(types.Type) []int, noun, consequence, unit string) {
 	r := c.R
 	info := f.M.Main().TypesInfo
 	callType := func(t ir.Term) (types.Type, *ir.App) {
@@ -78,14 +89,14 @@ func checkRelationsNotDropped(c *Ctx, f *FC) {
 		}
 		// every producing call
 		ir.WalkFunc(fn, func(t ir.Term) bool {
-			if tp, app := callType(t); app != nil && len(relComponents(tp, f.Path)) > 0 {
+			if tp, app := callType(t); app != nil && len(components(tp)) > 0 {
 				note(app)
 			}
 			if pj, ok := t.(*ir.Proj); ok {
 				if tp, app := callType(pj.X); app != nil {
-					for _, i := range relComponents(tp, f.Path) {
+					for _, i := range components(tp) {
 						if i >= 0 && i != pj.I {
-							dropped[app.Pos()] = fmt.Sprintf("only component %d of the result is taken; component %d (the relations) is discarded", pj.I, i)
+							dropped[app.Pos()] = fmt.Sprintf("only component %d of the result is taken; component %d (the "+noun+") is discarded", pj.I, i)
 						}
 					}
 				}
@@ -96,20 +107,20 @@ func checkRelationsNotDropped(c *Ctx, f *FC) {
 			for _, s := range b.Stmts {
 				switch x := s.(type) {
 				case *ir.Do:
-					if tp, app := callType(x.X); app != nil && len(relComponents(tp, f.Path)) > 0 {
-						dropped[app.Pos()] = "the call is an expression statement: its relations are discarded"
+					if tp, app := callType(x.X); app != nil && len(components(tp)) > 0 {
+						dropped[app.Pos()] = "the call is an expression statement: the " + noun + " is discarded"
 					}
 				case *ir.Let:
 					tp, app := callType(x.Val)
 					if app == nil {
 						continue
 					}
-					for _, i := range relComponents(tp, f.Path) {
+					for _, i := range components(tp) {
 						switch {
 						case i == -1 && len(x.Vars) == 1 && x.Vars[0] == nil:
-							dropped[app.Pos()] = "the relations are assigned to _"
+							dropped[app.Pos()] = "the " + noun + " is assigned to _"
 						case i >= 0 && x.Mode == ir.LetDestr && i < len(x.Vars) && x.Vars[i] == nil:
-							dropped[app.Pos()] = fmt.Sprintf("component %d of the result (the relations) is bound to _", i)
+							dropped[app.Pos()] = fmt.Sprintf("component %d of the result (the "+noun+") is bound to _", i)
 						}
 					}
 				}
@@ -126,14 +137,34 @@ func checkRelationsNotDropped(c *Ctx, f *FC) {
 			ord[name]++
 			sites++
 			cons := fmt.Sprintf("%s#%d", name, ord[name])
-			if why, bad := dropped[p]; bad {
-				r.Bad("C02.e", fn.Name, cons, c.Pos(f.M.Fset, p), "relations produced by "+name+" are dropped — "+why+": a constraint the program imposes never reaches the resolver, so a type the body determines can stay a type variable (emitted as T0…) or two uses are never unified")
+			why, bad := dropped[p]
+			if bad {
+				if ex, ok := droppedResultExceptions[rule+"|"+fn.Name+"|"+name]; ok {
+					r.OK(rule, fn.Name, cons, c.Pos(f.M.Fset, p), "frozen exception: "+ex)
+					continue
+				}
+				// a callee that returns its own argument unchanged: nothing is lost by not taking the result
+				if fr, ok := app.Fun.(*ir.FuncRef); ok {
+					if g, ok := f.Prog.ByKey[fr.Key]; ok {
+						nf := f.N.Func(g)
+						if sq, ok := nf.(*ir.Seq); ok {
+							nf = sq.Ret
+						}
+						if pr, ok := nf.(*ir.Param); ok && len(components(pr.Obj.Type())) > 0 {
+							r.OK(rule, fn.Name, cons, c.Pos(f.M.Fset, p), name+" returns its own argument "+pr.Obj.Name()+" unchanged; not taking the result loses nothing")
+							continue
+						}
+					}
+				}
+			}
+			if bad {
+				r.Bad(rule, fn.Name, cons, c.Pos(f.M.Fset, p), "the "+noun+" produced by "+name+" is dropped — "+why+": "+consequence)
 			} else {
-				r.OK("C02.e", fn.Name, cons, c.Pos(f.M.Fset, p), "the relations are bound, returned or passed on")
+				r.OK(rule, fn.Name, cons, c.Pos(f.M.Fset, p), "the "+noun+" is bound, returned or passed on")
 			}
 		}
 	}
-	r.Unit("relation_producing_calls", sites)
+	r.Unit(unit, sites)
 }
 
 func sortPos(ps []token.Pos) {
